@@ -171,6 +171,7 @@ class Contract:
     relpath = None
     qual = None
     props = ()            # property ids this contract serves
+    shards = None         # optional list of decision prefixes (top-level case split) verified in parallel
     inline_callees = ()
 
     # -- to be provided by concrete contracts
@@ -338,7 +339,7 @@ class Result:
         self.inlined = set()
 
 
-def verify(con, registry, opts=None):
+def verify(con, registry, opts=None, initial=None):
     """Generate and discharge every obligation of one function contract from the current source."""
     t0 = time.time()
     res = Result(con)
@@ -407,7 +408,7 @@ def verify(con, registry, opts=None):
                 check_frame(I, pfx + "raises::%s::" % typ, modset(spec.get("modifies", [])))
         return outcome
 
-    results = explore(run, registry, opts)
+    results = explore(run, registry, opts, initial=initial)
     for I, out in results:
         res.paths += 1
         if isinstance(out, tuple):
